@@ -77,6 +77,12 @@ class C11(Prop):
                 rec = {"op": "gate", "name": "CNOTrev" if scn["qubits"] == [1, 0] else scn["name"]}
                 g = getattr(C, scn["name"])(*scn["qubits"])
                 rec["ret"] = be.p_list(g.forward_map)
+                # the caller changes, in place, the table of the gate it was given; the next gate of the same name is
+                # still the textbook gate
+                nq = len(scn["qubits"])
+                g.forward_map.rotate_by(be.pauli([1] + [0] * (nq - 1) + [0]))
+                g.forward_map.rotate_by(be.pauli([0] * (nq - 1) + [3] + [2]))
+                rec["ret2"] = be.p_list(getattr(C, scn["name"])(*scn["qubits"]).forward_map)
                 return [rec]
             if k == "printopts":
                 import numpy
